@@ -481,7 +481,7 @@ fn forge_strategy() -> BoxedStrategy<ForgeCase> {
     (
         blob_strategy(2048),
         any::<[u8; 32]>(),
-        0u8..7,
+        0u8..11,
         proptest::option::weighted(0.3, proptest::collection::vec(crate::common::quote_strategy(ED_KEYS), 0..3)),
     )
         .prop_map(|(data, claimed, form, paid)| ForgeCase { data, claimed, form, paid })
@@ -507,7 +507,9 @@ fn check_forge(c: &ForgeCase, ctx: &mut Ctx) {
     let addr_bin = mp_bin(&c.claimed);
     let addr_arr = rmp_serde::to_vec(&c.claimed).expect("array");
     // candidate wire forms that try to carry an address next to (or instead of) the bytes
-    let crafted: Vec<u8> = match c.form % 7 {
+    // a name is also spelled as 64 hex characters in human-readable places; a tolerant reader may take that too
+    let addr_hex = mp_str(&hex::encode(c.claimed));
+    let crafted: Vec<u8> = match c.form % 11 {
         0 => [vec![0x92], addr_bin.clone(), value.clone()].concat(),
         1 => [vec![0x92], value.clone(), addr_bin.clone()].concat(),
         2 => [vec![0x92], addr_arr.clone(), value.clone()].concat(),
@@ -516,7 +518,11 @@ fn check_forge(c: &ForgeCase, ctx: &mut Ctx) {
         // the plain form followed by an address (trailing bytes)
         5 => [value.clone(), addr_bin.clone()].concat(),
         // the derived-serde layout of a struct { address: ChunkAddress(XorName), value }
-        _ => [vec![0x92, 0x91], addr_arr.clone(), value.clone()].concat(),
+        6 => [vec![0x92, 0x91], addr_arr.clone(), value.clone()].concat(),
+        7 => [vec![0x92], addr_hex.clone(), value.clone()].concat(),
+        8 => [vec![0x92], value.clone(), addr_hex.clone()].concat(),
+        9 => [vec![0x82], mp_str("address"), addr_hex.clone(), mp_str("value"), value.clone()].concat(),
+        _ => [vec![0x92, 0x91], addr_hex.clone(), value.clone()].concat(),
     };
     let (kind, payload) = match &c.paid {
         None => (RecordKind::Chunk, crafted),
@@ -526,11 +532,11 @@ fn check_forge(c: &ForgeCase, ctx: &mut Ctx) {
         }
     };
     let bytes = [vec![0x91, frozen_tag(kind)], payload].concat();
-    ctx.label(format!("form/{}", c.form % 7));
+    ctx.label(format!("form/{}", c.form % 11));
     ctx.label(kind_name(kind));
     ctx.nontrivial_if(!data.is_empty());
     ctx.canon = Some(format!("{:x}", vh_core::stable_hash(&bytes)));
-    ctx.sample = Some(json!({"form": c.form % 7, "len": data.len(), "kind": kind_name(kind)}));
+    ctx.sample = Some(json!({"form": c.form % 11, "len": data.len(), "kind": kind_name(kind)}));
     let rec = record_of(&bytes);
     match ctx.no_panic("try_deserialize_record", || decode_as(kind, &rec)) {
         Some(Ok(v)) => {
@@ -538,7 +544,7 @@ fn check_forge(c: &ForgeCase, ctx: &mut Ctx) {
             if let Some(ch) = v.chunk() {
                 let real = sha3_256(ch.value());
                 if ch.address().xorname().0 != real {
-                    ctx.fail("chunk_address_forged_through_wire", format!("form {}: decoded address {:?} is not the hash of the decoded bytes ({})", c.form % 7, ch.address(), hex::encode(real)));
+                    ctx.fail("chunk_address_forged_through_wire", format!("form {}: decoded address {:?} is not the hash of the decoded bytes ({})", c.form % 11, ch.address(), hex::encode(real)));
                 }
                 if ch.address().xorname().0 == c.claimed && c.claimed != want && c.claimed != real {
                     ctx.fail("chunk_address_forged_through_wire", "decoded address equals the smuggled one".to_string());
@@ -547,6 +553,103 @@ fn check_forge(c: &ForgeCase, ctx: &mut Ctx) {
         }
         Some(Err(_)) => ctx.label("crafted_form_rejected"),
         None => {}
+    }
+}
+
+
+// ------------------------------------------------------------------------------------------------
+// section hostile_quote_time: the time of a quote is wire data. No honest encoder emits a time that
+// does not fit the platform's clock type, a sender may: the decoders of paid records, proofs and quotes
+// must answer such bytes with an error (or a value), never crash.
+// ------------------------------------------------------------------------------------------------
+
+#[derive(Clone, Debug, Serialize, Deserialize)]
+pub struct HostileTimeCase {
+    pub quotes: Vec<crate::common::QuoteSpec>,
+    /// which quote of the proof is re-dated
+    pub which: u8,
+    pub secs: u64,
+    pub nanos: u32,
+    /// 0..4: the four paid record kinds; 4: a bare ProofOfPayment; 5: a bare PaymentQuote
+    pub carrier: u8,
+}
+
+fn hostile_time_strategy() -> BoxedStrategy<HostileTimeCase> {
+    let secs = prop_oneof![
+        2 => Just(u64::MAX),
+        2 => Just(i64::MAX as u64 + 1),
+        1 => Just(i64::MAX as u64),
+        1 => Just(i64::MAX as u64 - 1),
+        1 => (u64::MAX - 1_000_000_000)..=u64::MAX,
+        1 => (1u64 << 62)..(1u64 << 63),
+        1 => any::<u64>(),
+        1 => 1_600_000_000u64..1_900_000_000,
+    ];
+    let nanos = prop_oneof![2 => Just(0u32), 1 => Just(999_999_999u32), 2 => Just(1_000_000_000u32), 1 => Just(u32::MAX), 1 => any::<u32>()];
+    (proptest::collection::vec(crate::common::quote_strategy(ED_KEYS), 1..3), any::<u8>(), secs, nanos, 0u8..6)
+        .prop_map(|(quotes, which, secs, nanos, carrier)| HostileTimeCase { quotes, which, secs, nanos, carrier })
+        .boxed()
+}
+
+/// `PaymentQuote` with its time spelled as the pair serde writes for a `SystemTime`
+#[derive(Serialize, Deserialize)]
+struct QuoteTimeMirror {
+    content: xor_name::XorName,
+    timestamp: (u64, u32),
+    quoting_metrics: ant_evm::QuotingMetrics,
+    rewards_address: ant_evm::RewardsAddress,
+    pub_key: Vec<u8>,
+    signature: Vec<u8>,
+}
+
+fn check_hostile_time(c: &HostileTimeCase, ctx: &mut Ctx) {
+    let proof = proof_of(&c.quotes);
+    // through the wire form: encode honestly, read back with the time as two integers, re-date, re-encode
+    let mut mirrored: Vec<(ant_evm::EncodedPeerId, QuoteTimeMirror)> = vec![];
+    for (p, q) in &proof.peer_quotes {
+        let bytes = rmp_serde::to_vec(q).expect("quote encodes");
+        let Ok(m) = rmp_serde::from_slice::<QuoteTimeMirror>(&bytes) else {
+            // the wire form of a quote is no longer (.., (secs, nanos), ..): nothing to re-date
+            ctx.label("quote_wire_form_not_mirrored");
+            return;
+        };
+        mirrored.push((p.clone(), m));
+    }
+    let w = c.which as usize % mirrored.len();
+    mirrored[w].1.timestamp = (c.secs, c.nanos);
+    let fits = c.secs <= i64::MAX as u64 && c.nanos < 1_000_000_000;
+    ctx.label(if fits { "time_representable" } else { "time_not_representable" });
+    ctx.nontrivial_if(!fits);
+    ctx.canon = Some(format!("{}/{}/{}/{}", c.secs, c.nanos, c.carrier % 6, c.quotes.len()));
+    ctx.sample = Some(json!({"secs": c.secs, "nanos": c.nanos, "carrier": c.carrier % 6}));
+    let proof_bytes = rmp_serde::to_vec(&mirrored).map(|v| [vec![0x91], v].concat()).expect("mirror encodes");
+    match c.carrier % 6 {
+        4 => {
+            ctx.label("carrier/proof");
+            let _ = ctx.no_panic("decode_proof_of_payment", || rmp_serde::from_slice::<ant_evm::ProofOfPayment>(&proof_bytes).map(|_| ()));
+        }
+        5 => {
+            ctx.label("carrier/quote");
+            let qb = rmp_serde::to_vec(&mirrored[w].1).expect("mirror encodes");
+            let _ = ctx.no_panic("decode_payment_quote", || rmp_serde::from_slice::<ant_evm::PaymentQuote>(&qb).map(|_| ()));
+        }
+        k => {
+            let (kind, inner): (RecordKind, Vec<u8>) = match k {
+                0 => (RecordKind::ChunkWithPayment, rmp_serde::to_vec(&ant_protocol::storage::Chunk::new(bytes::Bytes::from_static(b"paid chunk"))).expect("chunk")),
+                1 => (RecordKind::ScratchpadWithPayment, rmp_serde::to_vec(&build_scratchpad(1, 7, &Blob::Lit(b"pad".to_vec()), 3, &PadSig::Owner).expect("pad")).expect("pad")),
+                2 => (RecordKind::TransactionWithPayment, rmp_serde::to_vec(&build_tx(&TxSpec { owner: 1, parents: vec![], content: [5u8; 32], outputs: vec![], signer: 1 })).expect("tx")),
+                _ => (RecordKind::RegisterWithPayment, rmp_serde::to_vec(&build_register(1, &[3u8; 32], &None, &[]).expect("reg")).expect("reg")),
+            };
+            ctx.label(format!("carrier/{}", kind_name(kind)));
+            let bytes = [vec![0x91, frozen_tag(kind)], vec![0x92], proof_bytes.clone(), inner].concat();
+            let rec = record_of(&bytes);
+            if let Some(r) = ctx.no_panic("try_deserialize_record", || decode_as(kind, &rec)) {
+                ctx.label(if r.is_ok() { "decodes" } else { "decode_error" });
+                if fits && r.is_err() {
+                    ctx.label("observation:representable_time_refused");
+                }
+            }
+        }
     }
 }
 
@@ -1204,8 +1307,13 @@ pub fn run(cfg: RunCfg) {
     );
     vh_core::section!(
         rep, "chunk_address", (100_000, 2_000_000), 16,
-        "seven crafted wire forms that try to carry an address next to the chunk bytes (tuple, map, struct-like, trailing), plain and inside (proof, chunk); accepted forms must still yield address = hash(bytes); non-trivial: non-empty bytes",
+        "eleven crafted wire forms that try to carry an address next to the chunk bytes (tuple, map, struct-like, trailing; the address as bin, as array and as 64 hex characters), plain and inside (proof, chunk); accepted forms must still yield address = hash(bytes); non-trivial: non-empty bytes",
         forge_strategy, check_forge
+    );
+    vh_core::section!(
+        rep, "hostile_quote_time", (40_000, 1_000_000), 16,
+        "paid records of all four kinds, bare proofs and bare quotes whose quote time is re-dated on the wire (seconds around i64::MAX / u64::MAX, nanoseconds at and above 10^9): the decoders return a value or an error. non-trivial: the time does not fit the clock type",
+        hostile_time_strategy, check_hostile_time
     );
     vh_core::section!(
         rep, "decode_bytes", (1_500_000, 40_000_000), 16,
